@@ -96,7 +96,7 @@ class Func:
         self.name = name; self.params = params; self.call = call; self.doc = doc
         self.paths = None; self.otype = None; self.error = None
 
-    def trace(self, maxpaths=400):
+    def trace(self, maxpaths=150):
         args = [p.symbolic() for p in self.params]
         def run():
             return _normalise(self.call(*args))
@@ -206,6 +206,7 @@ def eval_sym(e, env, P, memo):
                 # Lean's field division: x / 0 = 0 (both evaluators totalise the same way; real
                 # inputs on which this matters are excluded by the theorems' hypotheses)
                 r = a[0] * 0
+                memo['divzero'] = True
             else:
                 r = a[0] / a[1]
         elif op == 'neg': r = -a[0]
@@ -247,7 +248,10 @@ def eval_func(func, env, P, want_margin=False):
     _, kind, val = t
     if kind == 'exc':
         return ('exc', val, margin)
-    return ('ok', eval_value(val, env, P, memo), margin)
+    out = eval_value(val, env, P, memo)
+    if want_margin and memo.get('divzero'):
+        margin = 0.0          # the real code divided by zero here (inf/nan/ZeroDivisionError); Lean totalises x/0 = 0
+    return ('ok', out, margin)
 
 def make_env(func, values):
     """values: list aligned with func.params (scalars / nested lists / arrays)"""
